@@ -54,6 +54,8 @@ MUTANTS = [
     ("repair_snapshots: delete_list also in dry-run", sub1("commands/repair/snapshots.rs", r"if dry_run \{\s*info!\(\"would have removed \{\} snapshots\.\", state\.delete\.len\(\)\);\s*\} else \{", "{")),
     ("backup: archiver gets the undecorated backend", sub1("commands/backup.rs", r"Archiver::new\(be, index", "Archiver::new(repo.dbe().clone(), index")),
     ("save_file default bypasses the wrapper's own methods", sub1("backend/decrypt.rs", r"self\.hash_write_full\(F::TYPE, &data\)", "self.hash_write_full_uncompressed(F::TYPE, &data)")),
+    ("apply_config: handle config replaced only after save_config (seeded C15-1)", sub1("commands/config.rs", r"repo\.set_config\(new_config\.clone\(\)\);\s*save_config\(repo, new_config, \*repo\.dbe\(\)\.key\(\)\)\?;", "save_config(repo, new_config.clone(), *repo.dbe().key())?;\n        repo.set_config(new_config);")),
+    ("repair_index: indexer.add_with outside the dry-run test (seeded C15-2)", sub1("commands/repair/index.rs", r"if !dry_run \{\s*(?://[^\n]*\n\s*)?(indexer\.write\(\)\.unwrap\(\)\.add_with\(pack, false\)\?;)\s*\}", r"\1")),
     ("harmless: a comment and a log line in prune", sub1("commands/prune.rs", r"let be = repo\.dbe\(\);\s*let prune_time", "let be = repo.dbe(); // c15 probe\n    info!(\"pruning\");\n    let prune_time")),
 ]
 
